@@ -531,3 +531,23 @@ def distinct_cases(c):
         if len(cs) >= 3:
             seen.add("\n".join(c.ops[i] for i in cs[1:]))
     return len(seen)
+
+
+def replay_generic(ctx, path):
+    """./check Cxx --replay <file>: re-run the recorded op lines on the current /repo build and on the model."""
+    rep = json.load(open(path))
+    if "ops" not in rep:
+        print(json.dumps(rep, indent=1)[:4000])
+        print("replay file names no op sequence (obligation/undetermined/drift report)")
+        return 0
+    domain = rep.get("correspondence", ctx.pid)
+    build_hx(ctx)
+    build_drv(ctx)
+    args = rep.get("drv_args", [])
+    c = correspondence(ctx, domain, args, ops_text="\n".join(rep["ops"]) + "\n", timeout=600,
+                       drv_domain=rep.get("drv_domain"))
+    for i, op in enumerate(c.ops):
+        a = c.impl[i] if i < len(c.impl) else "<missing>"
+        b = c.model[i] if i < len(c.model) else "<missing>"
+        print("%-40s impl: %-50s model: %s%s" % (op[:40], a[:50], b[:50], ("  #F:" + ",".join(c.flags[i])) if i < len(c.flags) and c.flags[i] else ""))
+    return 1 if (c.mismatch or any(c.flags)) else 0
